@@ -56,6 +56,14 @@ pub enum Simple {
     SetO(#[form(header_body)] i32),
     #[form(tag = "clro")]
     ClrO,
+    /// only the pair agent has the map lane `om` with optional values: `updom` stores `Some(v)`,
+    /// `nilom` stores `None` (the empty encoding) under the key
+    #[form(tag = "updom")]
+    UpdOm { k: i32, v: i32 },
+    #[form(tag = "nilom")]
+    NilOm(#[form(header_body)] i32),
+    #[form(tag = "remom")]
+    RemOm(#[form(header_body)] i32),
     /// create a registered commander for a lane of a local node and keep it under `name`
     #[form(tag = "mkc")]
     MkC { name: String, node: String, lane: String },
@@ -277,7 +285,7 @@ impl TestLifecycle {
                 Simple::Clr => Box::new(context.clear(TestAgent::M)),
                 Simple::Push(x) => Box::new(context.supply(TestAgent::S, x).followed_by(context.effect(move || log.push(Truth::Push(x))))),
                 Simple::SetVs(x) => Box::new(context.set_value(TestAgent::VS, x)),
-                Simple::SetWs(_) | Simple::SetO(_) | Simple::ClrO => Box::new(context.effect(|| ())),
+                Simple::SetWs(_) | Simple::SetO(_) | Simple::ClrO | Simple::UpdOm { .. } | Simple::NilOm(_) | Simple::RemOm(_) => Box::new(context.effect(|| ())),
                 Simple::UpdMs { k, v } => Box::new(context.update(TestAgent::MS, k, v)),
                 Simple::RemMs(k) => Box::new(context.remove(TestAgent::MS, k)),
                 Simple::ClrMs => Box::new(context.clear(TestAgent::MS)),
